@@ -145,6 +145,11 @@ func (e *Eval) evalWhileStmt(w *ast.WhileStmt, env *Env) (Obj, error) {
 			return nil, err
 		}
 
+		// a return inside the loop leaves the loop (and the enclosing function)
+		if _, ok := res.(*retval); ok {
+			return res, nil
+		}
+
 		// if result is a break stmt, stop loo
 		if t, ok := res.(*ctrl); ok && t.typ == ast.CtrlBreak {
 			break
@@ -175,6 +180,11 @@ func (e *Eval) evalForStmt(f *ast.ForStmt, env *Env) (Obj, error) {
 		res, err := e.evalBlock(f.Body, scope)
 		if err != nil {
 			return nil, err
+		}
+
+		// a return inside the loop leaves the loop (and the enclosing function)
+		if _, ok := res.(*retval); ok {
+			return res, nil
 		}
 
 		// if result is a break stmt, stop loo
